@@ -239,6 +239,28 @@ theorem updateStackFrame_pre (f : Frame) (clobbered : Nat → Nat) (allocAlign s
   dsimp only
   rw [hf1, hg0]
 
+/-- **call area of a Compiler-built frame**: when the monitor accepts the stores the register allocator emitted before a call,
+every one of them lies inside `[0, call_stack_size)` and is disjoint from the local area -/
+theorem callArea_sound (callSize localOff localSize : Nat) (stores : List (Int × Nat))
+    (h : callAreaMonitor callSize localOff localSize stores = none) :
+    callSize ≤ localOff ∧ ∀ st ∈ stores, 0 ≤ st.1 ∧ st.1.toNat + st.2 ≤ callSize
+      ∧ (st.1.toNat + st.2 ≤ localOff ∨ localOff + localSize ≤ st.1.toNat) := by
+  unfold callAreaMonitor at h
+  by_cases hc : callSize ≤ localOff
+  · rw [if_pos hc, List.head?_eq_none_iff, List.filterMap_eq_nil_iff] at h
+    refine ⟨hc, fun st hst => ?_⟩
+    have h1 := h st hst
+    unfold callAreaStore at h1
+    by_cases hneg : st.1 < 0
+    · simp [hneg] at h1
+    · by_cases hz : st.2 = 0
+      · simp [hneg, hz] at h1
+      · by_cases hfit : st.1.toNat + st.2 ≤ callSize
+        · exact ⟨by omega, hfit, Or.inl (by omega)⟩
+        · simp only [hneg, if_false, hz, hfit] at h1
+          split at h1 <;> simp at h1
+  · rw [if_neg hc] at h; simp at h
+
 /-! ### non-vacuity: the slots of the check's first `ras` line, in the order the implementation's sort produced -/
 
 def exSlots : List RASlot :=
